@@ -285,6 +285,48 @@ def work_twins(chunk, st):
     st.sample({'twin_banners': [chunk[0][0], chunk[0][1]]}, cap=3)
 
 
+# ---- product and version are read from the software field: an identification string of every product family the tool knows, with a
+# character outside printable ASCII in its *comment* (the software field intact), is attributed to the same product and version -
+# and gets the same recommendations - as the same string with a literal '?' in that place; both roles
+def product_nonconforming_tasks():
+    out = []
+    for prod, fmt, vers, patches in TEMPLATES:
+        for v in (vers[0], vers[-1]):
+            sw = fmt % (v, patches[0] if ' ' not in patches[0] else '')
+            for ch in (b'\x80', b'\xc3\xa9', b'\x07', b'\x1b[0m', b'\xff\xfe', b'\x7f'):
+                for where in ('comment-end', 'comment-middle'):
+                    for role in ('server', 'client'):
+                        out.append((prod, sw, ch, where, role))
+    return out
+
+
+def work_product_nonconforming(chunk, st):
+    lists = dict(kex=['curve25519-sha256', 'diffie-hellman-group1-sha1'], key=['ssh-ed25519', 'ssh-rsa'], enc=['aes256-ctr', '3des-cbc'], mac=['hmac-sha2-256', 'hmac-md5'])
+
+    def run1(banner, role):
+        if role == 'server':
+            return H.audit(P.Server(banner=banner, host_keys=P.standard_host_keys(lists['key']), **lists), opts=['-n', '--skip-rate-test'])
+        return H.client_audit(P.Client(banner=banner, **lists), opts=['-n'])
+    for prod, sw, ch, where, role in chunk:
+        def line(x):
+            return b'SSH-2.0-' + sw.encode() + (b' build' + x if where == 'comment-end' else b' bu' + x + b'ild 7')
+        clean, dirty = run1(line(b'?' * 1), role), run1(line(ch), role)
+        root = ('product-nonconforming', sw, ch, where, role)
+        st.execution(dirty.world, outcome=('product-nc', dirty.status), root=root, nontrivial=root)
+        d = {'software_field': sw, 'injected': repr(ch), 'where': where, 'role': role, 'status': dirty.status}
+        if dirty.status not in (0, 2, 3) or clean.status not in (0, 2, 3):
+            st.violation('product:audit-failed', dict(d, stdout=dirty.stdout[-200:]))
+            continue
+        rc, rd = report.TextReport(clean.stdout), report.TextReport(dirty.stdout)
+        if rc.gen.get('software') is None:
+            st.violation('product:not-recognised:%s' % prod, dict(d, banner='clean'))
+        elif rd.gen.get('software') != rc.gen.get('software'):
+            st.violation('product:attribution-depends-on-comment-bytes:%s' % prod, dict(d, shown=rd.gen.get('software'), with_question_mark=rc.gen.get('software')))
+        elif sorted(rd.rec) != sorted(rc.rec) or dirty.status != clean.status:
+            st.violation('product:recommendations-depend-on-comment-bytes:%s' % prod, dict(d, recs=len(rd.rec), with_question_mark=len(rc.rec)))
+    st.sample({'product_nonconforming': [chunk[0][1], repr(chunk[0][2]), chunk[0][3]]}, cap=3)
+
+
 def twin_tasks():
     out = []
     for base, pos in (('SSH-2.0-OpenSSH_9.6', 12), ('SSH-2.0-build7 note', 13), ('SSH-1.99-dropbear_2020.81', 20), ('SSH-2.0-x c', 10)):
@@ -304,6 +346,7 @@ def run(tier, seed):
     cli = [(tuple(pre), bl, eol) for pre in PRELINES for bl in SOCK_BANNERS for eol in ('\r\n', '\n')]
     par.pmap(work_cli, cli, stats=st)
     par.pmap(work_twins, twin_tasks(), stats=st, chunk=4)
+    par.pmap(work_product_nonconforming, product_nonconforming_tasks(), stats=st, chunk=8)
     from props import delivery as _DL
     par.pmap(_DL.work, _DL.tasks(tier), extra=(('banner',),), stats=st, chunk=12)
     vcases = []
@@ -320,7 +363,7 @@ def run(tier, seed):
         rule='banner grammar to a bound: protocol %s x software tokens of length 1..%d over %s x comments %s with 1-3 space separators and trailing '
              'spaces; non-printable/non-ASCII characters %r injected at every position of short lines; product templates x versions x patches; '
              'socket path: %d header-line prefixes (incl. near-misses) x %d banners x CRLF/LF delivered whole and split at every%s offset; CLI text '
-             'and JSON for every prefix x banner x ending; pairs of targets in one invocation whose banners differ only in (non-printable character | literal "?") at one position, both orders; non-trivial = lines inside the grammar' % (
+             'and JSON for every prefix x banner x ending; pairs of targets in one invocation whose banners differ only in (non-printable character | literal "?") at one position, both orders; every product template with a non-printable character in its comment: same product, version and recommendations as with a literal "?"; non-trivial = lines inside the grammar' % (
                  PROTOS, 2 if tier == 'quick' else 3, TOKCH, COMMENTS, INJECT, len(PRELINES), len(SOCK_BANNERS), ' 3rd' if tier == 'quick' else ''),
         assumptions=['reference parser refmodels/banner.py written from RFC 4253 section 4.2', 'comments compared modulo collapsing of runs of blanks'],
         exhaustive=True, traces_validated=validated)
